@@ -14,8 +14,13 @@ template<typename T> constexpr bool lem_mul_step_t(fixed_t a, T n)
   }
 template<typename T> constexpr bool lem_mul_div_t(fixed_t a, T n)
   { if( n == 0 ) return true; fixed_t p = a * n; if( isnan(p) ) return true; fixed_t d = p / n; return isnan(d) || d == a; }
+// the same laws through the compound-assignment forms (operation sequences x *= n; x /= n and x += b; x -= b)
+template<typename T> constexpr bool lem_mul_div_seq_t(fixed_t a, T n)
+  { if( n == 0 ) return true; fixed_t x = a; x *= n; if( isnan(x) ) return true; x /= n; return isnan(x) || x == a; }
 extern "C" {
+constexpr bool lem_c17_add_sub_seq(fixed_t a, fixed_t b) { fixed_t x = a; x += b; if( isnan(x) ) return true; x -= b; return isnan(x) || x == a; }
 #define VF_C17(T, tag) \
+  constexpr bool lem_c17_mul_div_seq_##tag(fixed_t a, T n) { return lem_mul_div_seq_t<T>(a, n); } \
   constexpr bool lem_c17_mul_step_##tag(fixed_t a, T n) { return lem_mul_step_t<T>(a, n); } \
   constexpr bool lem_c17_mul_div_##tag(fixed_t a, T n) { return lem_mul_div_t<T>(a, n); }
 VF_C17(int8_t, a) VF_C17(int16_t, s) VF_C17(int32_t, i) VF_C17(int64_t, l)
